@@ -183,7 +183,10 @@ class DbmDB(object):
     def set(self, task_id, dependency, value):
         """Store value in the DB."""
         if task_id not in self._db:
-            self._db[task_id] = {}
+            # load existing data (if any), so other items are not lost
+            self.get(task_id, dependency)
+            if task_id not in self._db:
+                self._db[task_id] = {}
         self._db[task_id][dependency] = value
         self.dirty.add(task_id)
 
@@ -309,7 +312,8 @@ class SqliteDB(object):
     def set(self, task_id, dependency, value):
         """Store value in the DB."""
         if task_id not in self._cache:
-            self._cache[task_id] = {}
+            # load existing data (if any), so other items are not lost
+            self._cache[task_id] = self._get_task_data(task_id)
         self._cache[task_id][dependency] = value
         self._dirty.add(task_id)
 
